@@ -790,6 +790,11 @@ class ScipyProxy:
 
 PROXY = NpProxy()
 _saved = []
+_MISSING = object()
+
+
+def _noop(*a, **k):
+    return None
 
 
 class _StatsProxy:
@@ -870,10 +875,19 @@ def install(extra_modules=()):
             if new is not None:
                 _saved.append((mod, gname, gval))
                 setattr(mod, gname, new)
+        if 'print' not in vars(mod):
+            _saved.append((mod, 'print', _MISSING))
+            setattr(mod, 'print', _noop)
     return PROXY
 
 
 def uninstall():
     while _saved:
         mod, gname, gval = _saved.pop()
-        setattr(mod, gname, gval)
+        if gval is _MISSING:
+            try:
+                delattr(mod, gname)
+            except AttributeError:
+                pass
+        else:
+            setattr(mod, gname, gval)
